@@ -13,7 +13,7 @@ from __future__ import annotations
 import ast
 from typing import Dict, List, Optional, Set, Tuple
 
-from ..cfg import (CFG, call_name, calls_in, walk_no_nested, parents_map, guards_of, attr_chain, enum_paths)
+from ..cfg import (CFG, call_name, calls_in, walk_no_nested, parents_map, guards_of, attr_chain, enum_paths, const_int)
 from ..core import AnalysisError, Ctx, Func, norm
 from ..effects import Effects
 from ..resolve import Resolver
@@ -462,6 +462,22 @@ def r18_5(ctx: Ctx, E: Effects, rule="R18.5"):
     store = [s for s in walk_no_nested(rot.node) if isinstance(s, ast.Assign) and norm(s.targets[0]) == "self.atoms_positions"]
     ok = False
     why = ""
+    from ..pat import single_defs as _sd18
+    sd_rot = _sd18(rot.node)
+
+    def is_pos(e):
+        # the current positions: the attribute itself, or a local bound once to it
+        return norm(e) == "self.atoms_positions" or (isinstance(e, ast.Name) and e.id in sd_rot and norm(sd_rot[e.id]) == "self.atoms_positions")
+
+    def is_centre(d, pos_expr):
+        # the geometric centre of the same positions: the property, or the mean over the atoms of the positions read
+        if norm(d) == "self.geometric_center":
+            return True
+        if isinstance(d, ast.Call) and norm(d.func) in ("np.mean", "numpy.mean") and d.args and is_pos(d.args[0]) \
+                and (norm(d.args[0]) == norm(pos_expr) or norm(d.args[0]) == "self.atoms_positions") \
+                and ((len(d.args) == 2 and const_int(d.args[1]) == 0) or any(k.arg == "axis" and const_int(k.value) == 0 for k in d.keywords)):
+            return True
+        return False
     if len(store) == 1:
         from .exmap import _resolve_local
         val = _resolve_local(rot.node, store[0].value)
@@ -479,7 +495,7 @@ def r18_5(ctx: Ctx, E: Effects, rule="R18.5"):
                 centred = None
                 for o in ops:
                     o2 = _resolve_local(rot.node, o)
-                    if isinstance(o2, ast.BinOp) and isinstance(o2.op, ast.Sub) and norm(o2.left) == "self.atoms_positions":
+                    if isinstance(o2, ast.BinOp) and isinstance(o2.op, ast.Sub) and is_pos(o2.left):
                         centred = o2
                 if centred is not None and isinstance(c_add, ast.Name) and norm(centred.right) == c_add.id:
                     n_add = cfg.node_containing(c_add)
@@ -488,7 +504,7 @@ def r18_5(ctx: Ctx, E: Effects, rule="R18.5"):
                     d2 = rd.at(n_sub, c_add.id)
                     same = len(d1) == 1 and len(d2) == 1 and d1[0] is d2[0]
                     defv = d1[0].ast.value if same and isinstance(d1[0].ast, ast.Assign) else None
-                    ok = same and defv is not None and norm(defv) == "self.geometric_center" \
+                    ok = same and defv is not None and is_centre(defv, centred.left) \
                         and d1[0].ast.lineno < store[0].lineno
                     why = "" if ok else "the point added back is not the centre read before the rotation"
                 elif centred is not None and norm(c_add) == norm(centred.right) == "self.geometric_center":
